@@ -37,6 +37,8 @@ type Val struct {
 	Loc    *Loc       // for pointers whose target location is known
 	Fields []Val      // struct value, in field order
 	Tuple  []Val      // multi-value
+	Refl   *reflVal   // reflect.Value handles (reflectmodel.go)
+	ReflElems []Val   // a []reflect.Value built in place (variadic operand of reflect.Append)
 }
 
 type LocKind int
@@ -635,6 +637,9 @@ func (u *Universe) sub(l *Loc, field string, ft types.Type) *Loc {
 		return n
 	case LElem:
 		return &Loc{Kind: LElem, Base: l.Base, Owner: l.Owner, Path: append(append([]string{}, l.Path...), field), Idx: l.Idx, Typ: ft}
+	case LLocal:
+		// a struct-typed local that does not escape: one cell per leaf
+		return &Loc{Kind: LLocal, Key: l.Key + "." + field, Typ: ft}
 	}
 	panic("sub of non-struct location kind")
 }
